@@ -53,6 +53,8 @@ func C02(c *core.Ctx) {
 			})
 		}
 	}
+	// a composition is built from THIS file's definitions also when another file of the run uses the same reference text
+	ruleMultiSel(c, ruleSet("A-MAP", "A-TAG", "A-REQ", "A-NOEXTRA", "A-REJ"), 2, "allOf branch in two files")
 	c.Floor("families", c.Counts["members"], 600, "family members")
 	a := engb.New(c.Prog)
 	emit(c, a.Layout())
